@@ -9,9 +9,13 @@ OUT="${1:-/tmp/final_eval}"
 PARTS="${*:-unfix r1 r2 r3 r4 r5 r6 r7 neutral}"
 mkdir -p "$OUT/unfix" "$OUT/seeded" "$OUT/neutral"
 has() { case " $PARTS " in *" $1 "*) return 0;; esac; return 1; }
+# SHARD=i/n: only every n-th item, starting with the i-th (several jobs can share one part)
+SI="${SHARD%%/*}"; SN="${SHARD##*/}"; K=0
+mine() { K=$((K + 1)); [ -z "${SHARD:-}" ] && return 0; [ $((K % SN)) -eq "$SI" ] && return 0; return 1; }
 if has unfix; then
 for f in "$HERE"/selftest/patches/unfix/*.diff; do
   b=$(basename "$f" .diff)
+  mine || continue
   d="$OUT/unfix/$b"; mkdir -p "$d"; cp "$f" "$d/patch.diff"
   [ -s "$OUT/unfix/$b.json" ] && [ -z "${REDO:-}" ] && continue   # top-up runs keep what is there
   python3 "$HERE/tools/eval_mutant.py" "$d" --checks all > "$OUT/unfix/$b.json" 2>&1
@@ -22,6 +26,7 @@ seeded() {
   for d in "$@"; do
     [ -d "$d" ] || continue
     b=$(basename "$d")
+    mine || continue
     [ -s "$OUT/seeded/$b.json" ] && [ -z "${REDO:-}" ] && continue
     python3 "$HERE/tools/eval_mutant.py" "$d" --checks all > "$OUT/seeded/$b.json" 2>&1
     echo "seeded/$b done"
@@ -38,6 +43,7 @@ if has neutral; then
 for d in "$HERE"/selftest/neutral/N*; do
   [ -d "$d" ] || continue
   b=$(basename "$d")
+  mine || continue
   [ -s "$OUT/neutral/$b.json" ] && [ -z "${REDO:-}" ] && continue
   python3 "$HERE/tools/eval_mutant.py" "$d" --checks all > "$OUT/neutral/$b.json" 2>&1
   echo "neutral/$b done"
